@@ -477,11 +477,11 @@ def run_max_freq(case, ob, site):
         # ground instances first: a wrong formula is refuted by constant folding in milliseconds, whereas the solver may
         # need minutes to find a floating-point witness on its own; the general query follows only if these hold
         for L0 in (0.0, 1.0, 100.0, 1234.5):
-            if ob.prove('%s at max_length=%s' % (name, L0), z3.fpEQ(got.t, exp), pre + [z3.fpEQ(Lv, z3.FPVal(L0, F64))], None,
+            if ob.prove('%s at max_length=%s' % (name, L0), (got.t == exp), pre + [z3.fpEQ(Lv, z3.FPVal(L0, F64))], None,
                         site=site, extract=ext) == 'sat':
                 ob.paths += 1
                 return
-        ob.prove(name, z3.fpEQ(got.t, exp), pre, None, site=site, extract=ext)
+        ob.prove(name, (got.t == exp), pre, None, site=site, extract=ext)
     ob.paths += 1
 
 
